@@ -51,3 +51,77 @@ pub fn quiet_panics() {
         LAST_PANIC_LOC.with(|l| *l.borrow_mut() = loc);
     }));
 }
+
+
+/// Shared, streaming reader of ndjson cases on stdin: workers pull (index, case) one at a time, so millions of cases
+/// never sit in memory together.
+pub struct CaseStream {
+    inner: std::sync::Mutex<(usize, std::io::Lines<std::io::BufReader<std::io::Stdin>>)>,
+}
+impl CaseStream {
+    pub fn stdin() -> std::sync::Arc<Self> {
+        use std::io::BufRead;
+        std::sync::Arc::new(CaseStream { inner: std::sync::Mutex::new((0, std::io::BufReader::with_capacity(1 << 20, std::io::stdin()).lines())) })
+    }
+    pub fn next(&self) -> Option<(usize, serde_json::Value)> {
+        let line = {
+            let mut g = self.inner.lock().unwrap();
+            let mut found = None;
+            while let Some(l) = g.1.next() {
+                let l = l.expect("stdin");
+                if !l.trim().is_empty() {
+                    found = Some(l);
+                    break;
+                }
+            }
+            let l = found?;
+            let i = g.0;
+            g.0 += 1;
+            (i, l)
+        };
+        Some((line.0, serde_json::from_str(&line.1).expect("case json")))
+    }
+    pub fn count(&self) -> usize {
+        self.inner.lock().unwrap().0
+    }
+}
+
+/// Mismatch records grouped by their feature vector: at most `keep` records per class are stored, all are counted.
+pub struct Results {
+    keep: usize,
+    inner: std::sync::Mutex<std::collections::BTreeMap<String, (usize, Vec<serde_json::Value>)>>,
+}
+impl Results {
+    pub fn new(keep: usize) -> std::sync::Arc<Self> {
+        std::sync::Arc::new(Results { keep, inner: Default::default() })
+    }
+    pub fn extend(&self, recs: Vec<serde_json::Value>) {
+        if recs.is_empty() {
+            return;
+        }
+        let mut g = self.inner.lock().unwrap();
+        for r in recs {
+            let e = g.entry(format!("{}|{}", r["prop"], r["features"])).or_default();
+            e.0 += 1;
+            if e.1.len() < self.keep {
+                e.1.push(r);
+            }
+        }
+    }
+    /// writes the stored records, returns [[features, count], ..] and the total
+    pub fn emit(&self, out: &mut dyn std::io::Write) -> (Vec<serde_json::Value>, usize) {
+        let g = self.inner.lock().unwrap();
+        let mut counts = vec![];
+        let mut total = 0;
+        for (_, (n, rs)) in g.iter() {
+            total += n;
+            if let Some(r) = rs.first() {
+                counts.push(serde_json::json!([r["features"].to_string(), n]));
+            }
+            for r in rs {
+                writeln!(out, "{r}").unwrap();
+            }
+        }
+        (counts, total)
+    }
+}
